@@ -267,7 +267,12 @@ func build(t *template, ci int, choice []ArgVar, msg *ArgVar, junkTail bool) Var
 				c.Junk = append(c.Junk, jk)
 			}
 			if s.role == "flag" {
-				c.Class = "literal-where-the-grammar-has-none"
+				// the grammar has no literal here: the command is rejected at the "{"
+				if a.Sync {
+					c.Class = "sync-literal-in-rejected-command-line"
+				} else {
+					c.Class = "nonsync-literal-in-rejected-command-line"
+				}
 			}
 		}
 		if v.Stops {
@@ -294,6 +299,16 @@ func build(t *template, ci int, choice []ArgVar, msg *ArgVar, junkTail bool) Var
 		}
 		if a.Anomaly != "" || a.Size > AppendLimit {
 			benign = false
+		}
+		if a.Lit8 && t.msg == 1 {
+			// literal8 in APPEND needs the BINARY extension, which the server does not advertise:
+			// the command is rejected at the "~"
+			benign = false
+			if a.Sync {
+				c.Class = "sync-literal-in-rejected-command-line"
+			} else {
+				c.Class = "nonsync-literal-in-rejected-command-line"
+			}
 		}
 		if !a.Sync && a.Size > BufferedLimit {
 			needLP = true
@@ -363,12 +378,12 @@ func Variants(ci int) []Variant {
 		}
 		b := mk(base, m, false)
 		b.Core = true
-		if ti%2 == 0 {
+		if ti%4 == 0 {
 			b.Core2 = true
 		}
 		mk(base, m, true).Core = true
 		for si := range t.slots {
-			for _, a := range argVars(si == len(t.slots)-1 && t.msg == 0, false) {
+			for _, a := range argVars(si == len(t.slots)-1 && t.msg == 0 && t.slots[si].after == "\r\n", false) {
 				if a.Enc == "atom" {
 					continue
 				}
